@@ -2,6 +2,7 @@ package basestore
 
 import (
 	"context"
+	"time"
 
 	ipfslog "berty.tech/go-ipfs-log"
 	"berty.tech/go-orbit-db/internal/vstub"
@@ -381,4 +382,54 @@ func VerifC11LoadAbort() {
 		vstub.Assert(inLog(target, e), "C11 after a load aborted part-way a later load makes every reachable entry visible")
 		vstub.Assert(inView(target, e), "C11 after a load aborted part-way a later load shows every reachable entry in the view")
 	}
+}
+
+// VerifC11LateProvider: nothing is cancelled and nothing fails - the provider of
+// one block (the oldest entry, or a middle one) is merely SLOW: it answers after
+// a long delay (virtual time).  The request completes on its own and everything
+// reachable is visible; a later request for the same heads changes nothing.  (A
+// fetch that gives up after a timeout of its own turns the slow provider into a
+// request that failed part-way.)
+func VerifC11LateProvider() {
+	n := vstub.Param("N", 3)
+	blocks := vstub.NewBlocks(nil)
+	prov := vstub.NewProvider()
+	w2 := vstub.NewIdentity("w2", prov)
+	a, env := openAC("a", blocks, vstubodb.WriteAll())
+	if a == nil {
+		return
+	}
+	ctx := context.Background()
+	var l *ipfslog.IPFSLog
+	var all []ipfslog.Entry
+	for k := 0; k < n; k++ {
+		var e ipfslog.Entry
+		l, e = appendAs(env, l, a.id, w2, []byte{'c', byte(k)})
+		if e == nil {
+			return
+		}
+		all = append(all, e)
+	}
+	slow := all[vstub.NdChoice("slow-block", n-1)] // any entry but the head
+	blocks.Late[vstub.BlockKey(slow.GetHash())] = 10 * time.Minute
+	head := all[n-1]
+	if err := a.Sync(ctx, []ipfslog.Entry{head.Copy()}); err != nil {
+		vstub.Fail("C11 Sync returned an error")
+		return
+	}
+	vstub.WaitIdle()
+	// let (virtual) time pass beyond the provider's delay, then wait for quiescence again
+	<-time.After(11 * time.Minute)
+	vstub.WaitIdle()
+	vstub.Cover("slow-provider-answered")
+	delete(blocks.Late, vstub.BlockKey(slow.GetHash()))
+	if err := a.Sync(ctx, []ipfslog.Entry{head.Copy()}); err != nil {
+		vstub.Fail("C11 the later request returned an error")
+	}
+	vstub.WaitIdle()
+	for _, e := range all {
+		vstub.Assert(inLog(a, e), "C11 a request whose provider is slow (no abort by the caller) ends with every reachable entry visible, at the latest after a later request")
+		vstub.Assert(inView(a, e), "C11 ... and in the view")
+	}
+	vstub.Assert(len(a.Replicator().GetQueue()) == 0, "C11 nothing is left queued after a slow provider answered")
 }
